@@ -1,4 +1,8 @@
+mod fam_c08;
 mod fam_c13;
+mod fam_c16;
+mod fam_c20;
+mod world;
 mod ffi;
 mod out;
 mod rng;
@@ -10,11 +14,31 @@ fn arg(args: &[String], key: &str) -> Option<String> {
     args.iter().position(|a| a == key).and_then(|i| args.get(i + 1).cloned())
 }
 
+pub struct Ctx {
+    pub out: out::Out,
+    world: Option<std::rc::Rc<world::World>>,
+}
+impl Ctx {
+    /// the fixture pool, loaded (or generated) on first use
+    pub fn world(&mut self) -> std::rc::Rc<world::World> {
+        if self.world.is_none() {
+            self.world = Some(std::rc::Rc::new(world::World::load()));
+        }
+        self.world.as_ref().unwrap().clone()
+    }
+}
+
 /// implementation outcome of one case, whatever family generated it (also used by --replay)
-pub fn eval(case: &Value) -> Value {
+pub fn eval(case: &Value, ctx: &mut Ctx) -> Value {
     let op = case["op"].as_str().unwrap_or("").to_string();
     let r = std::panic::catch_unwind(std::panic::AssertUnwindSafe(|| match op.as_str() {
         "enc" => fam_c13::eval(case),
+        "q_parse" | "q_print" | "q_names" | "q_validate" | "req_validate" | "q_eval" | "q_selfattest_ok" => fam_c16::eval(case, &mut ctx.out),
+        "ivl_merge" | "ivl_override" | "ivl_valid" | "ivl_fold" | "ivl_requested" | "ivl_prover" | "ivl_check_legacy" => {
+            let w = ctx.world();
+            fam_c08::eval(case, &w)
+        }
+        "re" | "id" | "schema_valid" | "credreq_valid" => fam_c20::eval(case),
         _ => json!({"unknown_op": op}),
     }));
     match r {
@@ -31,7 +55,7 @@ fn main() {
     let out_path = arg(&args, "--out").unwrap_or_else(|| "/dev/null".into());
     std::panic::set_hook(Box::new(|_| {}));
     let mut rng = rng::Rng::new(seed);
-    let mut out = out::Out::create(&out_path);
+    let mut ctx = Ctx { out: out::Out::create(&out_path), world: None };
     let cases: Vec<Value> = match fam.as_str() {
         // re-evaluate the cases of a file (replay files, corpus files): one JSON case per line
         "replay" => {
@@ -50,17 +74,20 @@ fn main() {
                 })
                 .collect()
         }
-        "c13" => fam_c13::gen(&mut rng, thorough, &mut out),
+        "c08" => fam_c08::gen(&mut rng, thorough, &mut ctx.out),
+        "c13" => fam_c13::gen(&mut rng, thorough, &mut ctx.out),
+        "c16" => fam_c16::gen(&mut rng, thorough, &mut ctx.out),
+        "c20" => fam_c20::gen(&mut rng, thorough, &mut ctx.out),
         other => {
             eprintln!("unknown family {other}");
             std::process::exit(2);
         }
     };
     for case in cases {
-        let imp = eval(&case);
-        out.write_case(case, imp);
+        let imp = eval(&case, &mut ctx);
+        ctx.out.write_case(case, imp);
     }
-    let mut summary = out.finish();
+    let mut summary = ctx.out.finish();
     summary["family"] = json!(fam);
     summary["seed"] = json!(seed);
     summary["unit_hooks"] = json!(cfg!(feature = "unit_hooks"));
